@@ -269,7 +269,16 @@ pub enum Field {
 pub const REQ_FIELDS: [Field; 5] = [Field::Target, Field::Method, Field::Name, Field::Value, Field::IgnoredLine];
 pub const RESP_FIELDS: [Field; 5] = [Field::Reason, Field::Name, Field::Value, Field::IgnoredLine, Field::Ows];
 
-fn filler(field: Field, i: usize) -> u8 {
+fn filler(field: Field, i: usize, variant: usize) -> u8 {
+    if variant == 1 {
+        // obs-text-rich filler: bytes at the upper end of the classes next to the special byte
+        match field {
+            Field::Value | Field::Reason | Field::IgnoredLine | Field::ChunkExt => return [b'v', 0xFF, 0xA0, b'~', 0x80, b' ', 0xFE][i % 7],
+            // valid two-byte UTF-8 pairs (the target must stay valid UTF-8 to be accepted)
+            Field::Target => return [0xC3, 0xA9, b'~', 0xDF, 0xBF, b'!'][i % 6],
+            _ => {}
+        }
+    }
     match field {
         Field::Target => [b'a', b'/', b'~', b'!', b'z', b'%'][i % 6],
         Field::Method | Field::Name => [b'A', b'b', b'-', b'9', b'_', b'~'][i % 6],
@@ -284,8 +293,12 @@ fn filler(field: Field, i: usize) -> u8 {
 /// Message holding `field` of length `l` with byte `v` at position `q`
 /// (q >= l: no special byte), preceded by `phase` bytes of valid padding.
 pub fn g3_message(kind: Kind, field: Field, l: usize, q: usize, v: u8, phase: usize, lf_only: bool) -> Vec<u8> {
+    g3_message_v(kind, field, l, q, v, phase, lf_only, 0)
+}
+
+pub fn g3_message_v(kind: Kind, field: Field, l: usize, q: usize, v: u8, phase: usize, lf_only: bool, variant: usize) -> Vec<u8> {
     let eol: &[u8] = if lf_only { b"\n" } else { b"\r\n" };
-    let mut fld: Vec<u8> = (0..l).map(|i| filler(field, i)).collect();
+    let mut fld: Vec<u8> = (0..l).map(|i| filler(field, i, variant)).collect();
     if field == Field::Value || field == Field::Reason {
         // keep first/last visible so trimming does not hide the special byte's position
         if l > 0 {
@@ -399,7 +412,7 @@ pub fn g3_message(kind: Kind, field: Field, l: usize, q: usize, v: u8, phase: us
 
 // ------------------------------------------------------------------ G4
 
-pub const SIGMA_H: [u8; 11] = [b'a', b':', b' ', b'\t', b'\r', b'\n', 0x00, 0x01, 0x7F, 0x80, b'"'];
+pub const SIGMA_H: [u8; 12] = [b'a', b':', b' ', b'\t', b'\r', b'\n', 0x00, 0x1F, 0x7F, 0x80, 0xFF, b'"'];
 pub const SIGMA_R: [u8; 22] = [
     b'G', b'E', b'T', b'P', b'O', b'S', b'a', b' ', b'/', b'H', b'1', b'.', b'0', b'2', b'\r', b'\n', 0x00, b'\t', 0x7F, 0x80, 0xC3, b':',
 ];
@@ -1205,5 +1218,141 @@ pub fn guess_kind(b: &[u8]) -> Kind {
         Kind::Chunk
     } else {
         Kind::Hdr
+    }
+}
+
+// ------------------------------------------------------------------ G9 targeted families
+
+/// Targeted families named by the property records: all 1000 status codes,
+/// UTF-8 boundary sequences in targets straddling block boundaries, chunk
+/// digit-count patterns. `level` 0 = sparse (tiny/small), 1 = quick, 2 = thorough.
+pub fn g9_targeted(kind: Kind, level: usize, f: &mut dyn FnMut(&[u8])) {
+    match kind {
+        Kind::Resp => {
+            let step = if level == 0 { 37 } else { 1 };
+            let mut code = 0;
+            while code < 1000 {
+                let c = format!("{:03}", code);
+                for (i, tail) in [&b"\r\n"[..], b"\n", b" \r\n", b" OK\r\n", b"  two\n", b" r\xc3\xa9sum\xe9\r\n", b"\r\r\n", b"x\r\n"].iter().enumerate() {
+                    if level < 2 && i >= 4 && code % 7 != 0 {
+                        continue;
+                    }
+                    for sp in [&b" "[..], b"  "] {
+                        let mut b = b"HTTP/1.1".to_vec();
+                        b.extend_from_slice(sp);
+                        b.extend_from_slice(c.as_bytes());
+                        b.extend_from_slice(tail);
+                        b.extend_from_slice(b"A: b\r\n\r\n");
+                        f(&b);
+                        if level < 2 {
+                            break;
+                        }
+                    }
+                }
+                code += step;
+            }
+            // non-digit bytes in each code position
+            for pos in 0..3 {
+                for v in 0..=255u8 {
+                    if v.is_ascii_digit() || (level == 0 && v % 16 != 0) {
+                        continue;
+                    }
+                    let mut b = b"HTTP/1.0 204 No\r\n\r\n".to_vec();
+                    b[9 + pos] = v;
+                    f(&b);
+                }
+            }
+        }
+        Kind::Req => {
+            // UTF-8 boundary sequences at the start, middle and end of targets whose
+            // length straddles 8/16/32-byte blocks
+            let seqs: [&[u8]; 22] = [
+                b"\xc3\xa9", b"\xe2\x82\xac", b"\xf0\x9f\x98\x80", b"\xc2\x80", b"\xdf\xbf", b"\xe0\xa0\x80", b"\xef\xbf\xbf", b"\xf4\x8f\xbf\xbf",
+                // invalid: overlong, surrogate, truncated, > U+10FFFF, stray continuation, bad lead
+                b"\xc0\xaf", b"\xc1\xbf", b"\xe0\x9f\xbf", b"\xed\xa0\x80", b"\xed\xbf\xbf", b"\xf0\x8f\xbf\xbf", b"\xf4\x90\x80\x80", b"\xf5\x80\x80\x80",
+                b"\x80", b"\xbf", b"\xc3", b"\xe2\x82", b"\xf0\x9f\x98", b"\xff",
+            ];
+            let lens: Vec<usize> = if level == 0 { vec![1, 8, 16, 33] } else if level == 1 { vec![1, 2, 7, 8, 9, 15, 16, 17, 31, 32, 33, 40] } else { (1..=70).collect() };
+            for s in seqs.iter() {
+                for &l in &lens {
+                    if l < s.len() {
+                        continue;
+                    }
+                    let pad = l - s.len();
+                    let positions: Vec<usize> = if level == 2 { (0..=pad).collect() } else { vec![0, pad / 2, pad] };
+                    for p in positions {
+                        let mut b = b"GET ".to_vec();
+                        b.extend(std::iter::repeat(b'a').take(p));
+                        b.extend_from_slice(s);
+                        b.extend(std::iter::repeat(b'z').take(pad - p));
+                        b.extend_from_slice(b" HTTP/1.1\r\n\r\n");
+                        f(&b);
+                        // the same cut right after the sequence (target still in progress)
+                        f(&b[..4 + p + s.len()]);
+                    }
+                }
+            }
+            // methods of every length around the 4/5-byte fast-path peeks
+            for m in [&b"GET"[..], b"GE", b"G", b"GETX", b"GET\t", b"POST", b"POS", b"POSTX", b"POST\t", b"PUT", b"post", b"get", b"PATCH", b"DELETE"] {
+                for tail in [&b" / HTTP/1.1\r\n\r\n"[..], b" /", b" ", b""] {
+                    let mut b = m.to_vec();
+                    b.extend_from_slice(tail);
+                    f(&b);
+                }
+            }
+        }
+        Kind::Chunk => {
+            let pats: [&dyn Fn(usize, usize) -> u8; 7] = [
+                &|_, _| b'f',
+                &|_, _| b'F',
+                &|i, _| if i == 0 { b'1' } else { b'0' },
+                &|i, _| if i == 0 { b'8' } else { b'0' },
+                &|i, n| if i + 3 < n { b'0' } else { b'f' },
+                &|i, _| [b'a', b'B', b'9', b'0', b'e', b'F'][i % 6],
+                &|i, n| if i + 1 == n { b'1' } else { b'0' },
+            ];
+            let terms: [&[u8]; 10] = [b"\r\n", b"\n", b"\rX", b"", b" \r\n", b"\t \t\r\n", b";ext\r\n", b" ;a=b\r\n", b" 1\r\n", b";\rX\r\n"];
+            for digits in 0..=20usize {
+                for p in pats.iter() {
+                    let d: Vec<u8> = (0..digits).map(|i| p(i, digits)).collect();
+                    for t in terms.iter() {
+                        let mut b = d.clone();
+                        b.extend_from_slice(t);
+                        f(&b);
+                    }
+                }
+            }
+            // 64-bit boundaries
+            for v in [u64::MAX, u64::MAX - 1, 1u64 << 63, (1u64 << 60) - 1, 1u64 << 60, (1u64 << 60) + 1, 16u64.pow(15) - 1, 16u64.pow(15), 16u64.pow(15) + 1, 0, 1] {
+                for s in [format!("{:x}\r\n", v), format!("{:X}\r\n", v), format!("{:016x}\r\n", v), format!("0{:016x}\r\n", v), format!("{:x}0\r\n", v)] {
+                    f(s.as_bytes());
+                }
+            }
+        }
+        Kind::Hdr => {
+            // OWS runs of 0..=40 before and after the value; 1..=70 headers per block
+            let maxo = if level == 0 { 9 } else { 40 };
+            for o in 0..=maxo {
+                for ws in [b' ', b'\t'] {
+                    let mut b = b"Name:".to_vec();
+                    b.extend(std::iter::repeat(ws).take(o));
+                    b.extend_from_slice(b"value");
+                    b.extend(std::iter::repeat(ws).take((o * 7) % 41));
+                    b.extend_from_slice(b"\r\nNext: x\r\n\r\n");
+                    f(&b);
+                }
+            }
+            let step = if level == 0 { 23 } else { 1 };
+            let mut n = 1;
+            while n <= 70 {
+                let mut b = Vec::new();
+                for i in 0..n {
+                    b.extend_from_slice(format!("h{}: {}\r\n", i, "v".repeat(i % 19)).as_bytes());
+                }
+                b.extend_from_slice(b"\r\n");
+                f(&b);
+                n += step;
+            }
+        }
     }
 }
